@@ -172,11 +172,14 @@ def model_histories(ctx: Ctx, tag: str) -> Tuple[List[dict], Dict[str, Any]]:
     predicted: Dict[str, Any] = {}
     allb = exhaustive_behaviours('MC_Listener_replay')
     n_all = len(allb)
-    if ctx.thorough:
+    if tag == 'c15':
+        # undecodable datagrams between well-formed ones, gaps below and above the guard's second
+        allb = exhaustive_behaviours('MC_Listener_replay_xx')
+    elif ctx.thorough:
         allb = allb + exhaustive_behaviours('MC_Listener_replay_big')
     else:
         # quick tier: every sixth history of the small configuration, a different residue for every property that runs this
-        allb = allb[int(tag[1:]) % 6::6]
+        allb = allb[int(tag[1:]) % 6::6] if tag != 'c15' else allb
     for k, (h, c, u) in enumerate(allb):
         sid = '%s-lsn-x%d' % (tag, k)
         scs.append({'id': sid, 'hist': [list(x) for x in h], 'end': 5000})
@@ -200,7 +203,7 @@ def run(ctx: Ctx, own: str, replay_scs: Any = None) -> None:
     else:
         scs, predicted = replay_scs, {}
     traces = trace_run.record_all('props.listenermodel', 'ListenerRecorder', scs, 16 if ctx.thorough else 8)
-    common = {'kinds': {k: {'kind': v[0], 'tc': v[1], 'qu': v[2]} for k, v in KINDS.items()}, 'addrs': sorted(ADDR)}
+    common = {'kinds': {k: {'kind': v[0], 'tc': v[1], 'qu': v[2]} for k, v in KINDS.items()}, 'addrs': sorted(ADDR), 'own': own}
     verdicts, states, trans = trace_run.validate('Trace_Listener', traces, common, batch=2000, par=4)
     by_id = {t['id']: t for t in traces}
     sc_by_id = {s['id']: s for s in scs}
